@@ -92,7 +92,9 @@ def grammar_cases(ctx, cat, n_lines, n_progs):
     setup = ['OPEN "F1" FOR INPUT AS 1', 'OPEN "F2" FOR OUTPUT AS 2', 'OPEN "F3" FOR RANDOM AS 3 LEN=16', 'SCREEN 1', 'SCREEN 2',
              'VIEW (5,5)-(50,50)', 'WINDOW (-1,-1)-(1,1)', 'DEF SEG=0', 'DEF SEG=&HB800', 'KEY ON', 'WIDTH 40', 'OPTION BASE 1',
              'DIM B(5),B$(5)', 'A$="HELLO":A=5:A%=7:A#=1D10', 'ON ERROR GOTO 1000', 'FIELD #3,8 AS A$,8 AS B$', 'DEFINT A-Z',
-             'DEF FNA(X)=X*2', 'LOCATE 25,80', 'COLOR 15,1', 'PLAY "MB"', 'CLEAR ,20000', 'VIEW PRINT 5 TO 10']
+             'DEF FNA(X)=X*2', 'LOCATE 25,80', 'COLOR 15,1', 'PLAY "MB"', 'CLEAR ,20000', 'VIEW PRINT 5 TO 10',
+             'WIDTH "LPT2:",80', 'WIDTH "LPT3:",40', 'WIDTH "COM1:",80', 'WIDTH "CAS1:",80', 'OPEN "LPT2:" FOR OUTPUT AS 2',
+             'OPEN "COM2:" AS 2', 'LPRINT "X"', 'PRINT FNC', 'A=FND+1']
     cases = []
     for _ in range(n_lines):
         lines = rng.sample(setup, rng.randint(0, 3))
@@ -101,7 +103,8 @@ def grammar_cases(ctx, cat, n_lines, n_progs):
         cases.append({'arm': 'L', 'sub': 'grammar-line', 'lines': lines})
     flow = ['FOR I=1 TO 3', 'NEXT', 'NEXT I', 'WHILE I<3:I=I+1', 'WEND', 'GOSUB 1000', 'RETURN', 'IF A THEN 40 ELSE 60', 'ON A GOTO 20,40,60',
             'ON ERROR GOTO 1000', 'RESUME NEXT', 'RESUME', 'ERROR 5', 'READ A,B$', 'DATA 1,X,"Y",', 'RESTORE', 'END', 'STOP', 'CLEAR', 'RUN 40',
-            'ON TIMER(1) GOSUB 1000:TIMER ON', 'KEY(1) ON', 'CHAIN "PROG.BAS"', 'COMMON A,B$', 'DEF FNB(X)=FNB(X)', 'GOTO 20', 'NEW', 'CONT',
+            'ON TIMER(1) GOSUB 1000:TIMER ON', 'KEY(1) ON', 'CHAIN "PROG.BAS"', 'COMMON A,B$', 'DEF FNB(X)=FNB(X)', 'DEF FNC=FNC+1', 'DEF FND=FNE:DEF FNE=FND',
+            'PRINT FNB(1)', 'PRINT FNC', 'A=FND', 'GOTO 20', 'NEW', 'CONT',
             'DELETE 20-40', 'RENUM', 'RENUM 100,40', 'LIST', 'EDIT 10', 'AUTO', 'MERGE "ASC.BAS"', 'LOAD "PROG.BAS",R', 'SAVE "Q",A']
     for _ in range(n_progs):
         nl = rng.randint(2, 9)
